@@ -307,6 +307,22 @@ func (mq *memtableQueue) addWithID(id uint32, vector []float32, text string, met
 	return mutable.addWithID(id, vector, text, metadata)
 }
 
+// removeDoc removes a document from the active memtable.
+//
+// Like add, it works under the queue lock: if the memtable were chosen first
+// and the lock released, a concurrent rotation and flush could move the
+// document into a segment in between, and the removal would report success
+// although the document stays visible.
+func (mq *memtableQueue) removeDoc(id uint32) error {
+	mq.mu.Lock()
+	defer mq.mu.Unlock()
+
+	mutable := mq.mutable
+	verifPoint("remove:before_remove", mutable)
+
+	return mutable.remove(id)
+}
+
 // Rotate creates a new mutable memtable and freezes the old one.
 //
 // Useful for forcing rotation before the size limit is reached,
